@@ -336,7 +336,7 @@ Definition import_key (k : list N) (point_ok : bool) : outcome :=
   | [] => OPanic                                            (* veriying_key[0] *)
   | b0 :: _ =>
       if negb (N.eqb b0 key_type_ed25519) then OErr          (* InvalidKeyType *)
-      else if negb (Nat.eqb (length k) 33) then OErr         (* InvalidKeyLenght *)
+      else if negb (Nat.eqb (List.length k) 33) then OErr         (* InvalidKeyLenght *)
       else if point_ok then OOk else OErr                    (* VerifyingKey::from_bytes *)
   end.
 
@@ -358,7 +358,7 @@ Inductive row :=
 | RowDeletion (k : list N) (point_ok : bool) (sig_len : N) (sig_ok : bool).   (* Node/EdgeDeletionEntry *)
 
 Definition max_edge_length : N := 1024.
-Definition nlen {A} (l : list A) : N := N.of_nat (length l).
+Definition nlen {A} (l : list A) : N := N.of_nat (List.length l).
 
 (* Node::verify, Edge::verify, NodeDeletionEntry::verify, EdgeDeletionEntry::verify *)
 Definition verify_row (r : row) : outcome :=
@@ -473,49 +473,210 @@ Definition alias_admissible (e : dentity) (alias : option ident) : bool :=
   | Some a => negb (starts_underscore a) && match get_field e a with Some _ => false | None => true end
   end.
 
-(* parse_entity_internals; fuel = nesting depth bound of the recursion through the data model
-   (structural on the request); keys = names already selected (EntityQuery::add_field) *)
-Fixpoint resolve_fields (dm : dmodel) (e : dentity) (fs : list rfield) (keys : list ident) {struct fs}
-  : option (list cfield) :=
-  match fs with
-  | [] => Some []
-  | f :: rest =>
-      let step (key : ident) (c : cfield) :=
-        if existsb (ident_eqb key) keys then None                        (* DuplicatedField *)
-        else match resolve_fields dm e rest (key :: keys) with
-             | Some cs => Some (c :: cs)
-             | None => None
-             end in
-      match f with
-      | RNamed alias name =>
-          if negb (alias_admissible e alias) then None
-          else match get_field e name with
-               | Some (FUserF (KScalar js d)) => step (field_key alias name) (CScalar false false d)
-               | Some (FSysScalar b) => step (field_key alias name) (CScalar true b false)
-               | _ => None
-               end
-      | RJson alias name =>
-          match get_field e name with
-          | Some (FUserF (KScalar true d)) => step alias (CJsonSel d)
-          | _ => None
-          end
-      | RSub alias name subs =>
-          if negb (alias_admissible e alias) then None
-          else match get_field e name with
-               | Some (FUserF (KRef arr t nl)) =>
-                   match nth_error dm t with
+(* parse_entity_internals, one field: the key under which it is selected and its compiled form.
+   (nested recursion through the list of sub-fields: inner fix = resolve_list below) *)
+Fixpoint resolve_field (dm : dmodel) (e : dentity) (f : rfield) {struct f} : option (ident * cfield) :=
+  match f with
+  | RNamed alias name =>
+      if negb (alias_admissible e alias) then None
+      else match get_field e name with
+           | Some (FUserF (KScalar js d)) => Some (field_key alias name, CScalar false false d)
+           | Some (FSysScalar b) => Some (field_key alias name, CScalar true b false)
+           | _ => None                                   (* unknown, or entity field without { } *)
+           end
+  | RJson alias name =>                                  (* no alias check in the code for this form *)
+      match get_field e name with
+      | Some (FUserF (KScalar true d)) => Some (alias, CJsonSel d)
+      | _ => None
+      end
+  | RSub alias name subs =>
+      if negb (alias_admissible e alias) then None
+      else match get_field e name with
+           | Some (FUserF (KRef arr t nl)) =>
+               match nth_error dm t with
+               | None => None
+               | Some te =>
+                   match (fix go (l : list rfield) (keys : list ident) {struct l} : option (list cfield) :=
+                            match l with
+                            | [] => Some []
+                            | x :: r =>
+                                match resolve_field dm te x with
+                                | None => None
+                                | Some (key, c) =>
+                                    if existsb (ident_eqb key) keys then None      (* DuplicatedField *)
+                                    else match go r (key :: keys) with
+                                         | Some cs => Some (c :: cs)
+                                         | None => None
+                                         end
+                                end
+                            end) subs [] with
+                   | Some cs => Some (field_key alias name, CSub (field_key alias name) arr nl cs)
                    | None => None
-                   | Some te =>
-                       match (fix sub (l : list rfield) (ks : list ident) {struct l} : option (list cfield) :=
-                                match l with
-                                | [] => Some []
-                                | _ => resolve_fields dm te l ks
-                                end) subs [] with
-                       | Some cs => step (field_key alias name) (CSub (field_key alias name) arr nl cs)
-                       | None => None
-                       end
                    end
-               | _ => None
+               end
+           | _ => None                                   (* unknown, scalar with { }, sys_room / sys_peer: not modelled *)
+           end
+  end.
+
+(* the fields of one selection, in text order; keys = names already selected (EntityQuery::add_field) *)
+Fixpoint resolve_list (dm : dmodel) (e : dentity) (l : list rfield) (keys : list ident) : option (list cfield) :=
+  match l with
+  | [] => Some []
+  | x :: r =>
+      match resolve_field dm e x with
+      | None => None
+      | Some (key, c) =>
+          if existsb (ident_eqb key) keys then None
+          else match resolve_list dm e r (key :: keys) with
+               | Some cs => Some (c :: cs)
+               | None => None
                end
       end
+  end.
+
+(* QueryParser::parse_entity + the top-level checks of QueryParser::parse *)
+Definition aliased_name (q : rentity) : ident :=
+  match re_alias q with Some a => a | None => full_name (re_ns q) (re_name q) end.
+
+Definition resolve_entity (dm : dmodel) (q : rentity) : option centity :=
+  if match re_alias q with Some a => starts_underscore a | None => false end then None     (* InvalidName *)
+  else match find_entity dm (re_ns q) (re_name q) with
+       | None => None                                                       (* EntityNotFound *)
+       | Some e =>
+           match resolve_list dm e (re_fields q) [] with
+           | None => None
+           | Some cs =>
+               (* alias conflicting with an entity of the data model (aliases carry no dot here:
+                  the lookup is in the empty namespace) *)
+               if match re_alias q with
+                  | Some a => match find_entity dm [] a with Some _ => true | None => false end
+                  | None => false end then None
+               else Some {| ce_alias := dollar (aliased_name q); ce_search := re_search q; ce_fields := cs |}
+           end
+       end.
+
+Fixpoint resolve_query (dm : dmodel) (qs : list rentity) (names : list ident) : option (list centity) :=
+  match qs with
+  | [] => Some []
+  | q :: r =>
+      match resolve_entity dm q with
+      | None => None
+      | Some c =>
+          if existsb (ident_eqb (aliased_name q)) names then None      (* name or alias already defined *)
+          else match resolve_query dm r (aliased_name q :: names) with
+               | Some cs => Some (c :: cs)
+               | None => None
+               end
+      end
+  end.
+
+(* statement skeleton emitted by query.rs: SELECT keywords, parentheses, unquoted alias splices;
+   everything else (quoted keys, json paths, bound parameters, fixed keywords) is TX *)
+Inductive tok := TSel | TL | TR | TAl (a : ident) | TX.
+
+(* get_fields / get_exists_query / get_sub_group_array / get_sub_entity_query for one selected
+   field read from table alias [parent]:
+     fst = what the field contributes inside the parent's json_object( .. ),
+     snd = what it contributes to the parent's WHERE clause (AND EXISTS ( .. ) for a reference
+           that is not nullable: the sub-select is emitted a second time) *)
+Fixpoint emit (parent : ident) (c : cfield) {struct c} : list tok * list tok :=
+  match c with
+  | CScalar true true _ => ([TX; TL; TAl parent; TX; TR], [])     (* 'k', base64_encode(P.col) *)
+  | CScalar true false _ => ([TX; TAl parent; TX], [])            (* 'k', P.col *)
+  | CScalar false _ true => ([TX; TL; TX; TR], [])                (* 'k',Ifnull(_json->'$.n',d) *)
+  | CScalar false _ false => ([TX], [])                           (* 'k',_json->'$.n' *)
+  | CJsonSel true => ([TX; TL; TX], [])                           (* 'k', Ifnull(sel,d      sic, query.rs:528 *)
+  | CJsonSel false => ([TX], [])
+  | CSub key arr nl subs =>
+      let parts := map (emit key) subs in
+      let body :=                                                 (* get_sub_entity_query *)
+        [TSel; TX; TL] ++ List.concat (map fst parts)
+        ++ [TR; TX; TAl key; TX; TAl key; TX; TAl key; TX; TAl parent; TX]
+        ++ List.concat (map snd parts) ++ [TX] in
+      ((if arr then [TX; TL; TSel; TX; TL; TX; TR; TX; TL] ++ body ++ [TR; TR]   (* 'k', ( group_array( sub ) ) *)
+        else [TX; TL] ++ body ++ [TR; TX]),                                     (* 'k', ( sub )->'$' *)
+       (if nl then [] else [TX; TL] ++ body ++ [TR]))
+  end.
+
+(* SingleQuery::build + get_entity_query *)
+Definition emit_entity (c : centity) : list tok :=
+  let a := ce_alias c in
+  let parts := map (emit a) (ce_fields c) in
+  [TSel; TX; TL; TX; TR; TX; TL]
+  ++ [TSel; TX; TL] ++ List.concat (map fst parts) ++ [TR; TX; TAl a]
+  ++ (match ce_search c with Some _ => [TX; TAl a; TX] | None => [] end)
+  ++ [TX; TAl a; TX] ++ List.concat (map snd parts)
+  ++ (match ce_search c with Some _ => [TX] | None => [] end)
+  ++ [TR].
+
+(* what the engine needs of the skeleton: parentheses balance (never closing below zero),
+   every unquoted alias is a legal, non-reserved identifier *)
+Fixpoint balance (d : Z) (ts : list tok) : option Z :=
+  match ts with
+  | [] => Some d
+  | TL :: r => balance (d + 1) r
+  | TR :: r => if Z.leb d 0 then None else balance (d - 1) r
+  | _ :: r => balance d r
+  end.
+Definition balanced (ts : list tok) : bool :=
+  match balance 0 ts with Some 0 => true | _ => false end.
+Definition tok_alias_ok (t : tok) : bool := match t with TAl a => alias_ok a | _ => true end.
+Definition wf_sql (ts : list tok) : bool := balanced ts && forallb tok_alias_ok ts.
+
+Definition count_tok (p : tok -> bool) (ts : list tok) : N := nlen (filter p ts).
+Definition is_sel (t : tok) := match t with TSel => true | _ => false end.
+Definition is_l (t : tok) := match t with TL => true | _ => false end.
+Definition is_r (t : tok) := match t with TR => true | _ => false end.
+
+(* the same three counters computed without building the token list (exponential in the
+   nesting of non-nullable references): (SELECT, "(", ")") in (selection part, EXISTS part) *)
+Definition c3 := (N * N * N)%type.
+Definition c3_add (a b : c3) : c3 :=
+  let '(a1, a2, a3) := a in let '(b1, b2, b3) := b in ((a1 + b1)%N, (a2 + b2)%N, (a3 + b3)%N).
+Definition c3_sum (l : list c3) : c3 := fold_right c3_add (0%N, 0%N, 0%N) l.
+Fixpoint counts (c : cfield) {struct c} : c3 * c3 :=
+  match c with
+  | CScalar true true _ => ((0, 1, 1)%N, (0, 0, 0)%N)
+  | CScalar true false _ => ((0, 0, 0)%N, (0, 0, 0)%N)
+  | CScalar false _ true => ((0, 1, 1)%N, (0, 0, 0)%N)
+  | CScalar false _ false => ((0, 0, 0)%N, (0, 0, 0)%N)
+  | CJsonSel true => ((0, 1, 0)%N, (0, 0, 0)%N)
+  | CJsonSel false => ((0, 0, 0)%N, (0, 0, 0)%N)
+  | CSub key arr nl subs =>
+      let parts := map counts subs in
+      let body := c3_add (1, 1, 1)%N (c3_add (c3_sum (map fst parts)) (c3_sum (map snd parts))) in
+      ((if arr then c3_add (1, 3, 3)%N body else c3_add (0, 1, 1)%N body),
+       (if nl then (0, 0, 0)%N else c3_add (0, 1, 1)%N body))
+  end.
+Definition counts_entity (c : centity) : c3 :=
+  let parts := map counts (ce_fields c) in
+  c3_add (2, 3, 3)%N (c3_add (c3_sum (map fst parts)) (c3_sum (map snd parts))).
+
+(* the engine's parser has a fixed stack (YYSTACKDEPTH 100): nested sub-selects overflow it.
+   Calibrated against the linked engine (and re-checked by every run): a selection path with
+   [a] array levels and [s] single-reference levels is accepted iff 8a + 5s <= 39 *)
+Fixpoint stack_cost (c : cfield) {struct c} : N :=
+  match c with
+  | CSub _ arr _ subs => ((if arr then 8 else 5) + fold_right N.max 0 (map stack_cost subs))%N
+  | _ => 0%N
+  end.
+Definition stack_budget : N := 39.
+Definition depth_ok (c : centity) : bool :=
+  N.leb (fold_right N.max 0%N (map stack_cost (ce_fields c))) stack_budget.
+
+(* search(): the text is handed to FTS5 MATCH as a query expression; blank text is a syntax error.
+   (other FTS5 syntax in the text is not modelled: the generator only searches for plain words) *)
+Definition is_blank (s : list N) : bool := forallb (fun c => N.eqb c 32) s.
+Definition search_ok (c : centity) : bool :=
+  match ce_search c with Some s => negb (is_blank s) | None => true end.
+
+(* does the engine execute the statement compiled for this selection *)
+Definition entity_executes (c : centity) : bool :=
+  wf_sql (emit_entity c) && depth_ok c && search_ok c.
+
+(* GraphDatabaseService::query: Ok iff the request resolves and every statement executes *)
+Definition query_outcome (dm : dmodel) (qs : list rentity) : outcome :=
+  match resolve_query dm qs [] with
+  | None => OErr
+  | Some cs => if forallb entity_executes cs then OOk else OErr
   end.
